@@ -2,7 +2,9 @@
    The tables below are REGENERATED from the source on every run (Gen/Status.v, harness/verifh/gen_status.go);
    the theorems are finite computations over them (the whole finite domain, not a sample). *)
 From Coq Require Import List String ZArith Bool.
-From RV Require Import Gen.Status Spec.Front15 Model.Coro Model.Equiv Proofs.PC15.
+From RV Require Import Gen.Status Spec.Front15 Model.Coro Model.Equiv Model.Render Proofs.PC15.
+From Coq Require Import Lia ZifyBool.
+Ltac Zify.zify_post_hook ::= Z.div_mod_to_equations.
 Import ListNotations.
 
 (* every status code the kernel defines has a message (StatusCode.String has a case for it) ... *)
@@ -83,3 +85,50 @@ Example C15_wf_example :
   http_front (LReq (QClaimTask "t" 1 "p" 0) "") = Some (QClaimTask "t" 1 "p" 0) /\
   http_front (LSearchP "*" 3 [] 0) = Some (QSearchPromises "*" [Rejected; Timedout; Canceled] [] 100 None).
 Proof. vm_compute. repeat split; reflexivity. Qed.
+
+(* ---------- rendering of every kernel outcome (Model/Render.v; family "render" runs the production HTTP server and
+   gRPC handlers on every operation x every status x every response shape against these functions) ---------- *)
+(* a success is rendered as HTTP 2xx and gRPC OK, and nothing else is: for EVERY integer status, not only the defined ones *)
+Theorem C15_success_iff_2xx : forall s, successful s = true <-> (200 <= http_expected s < 300)%Z.
+Proof. intro s. unfold successful, http_expected. lia. Qed.
+Print Assumptions C15_success_iff_2xx.
+Theorem C15_grpc_ok_iff_success : forall s, grpc_expected s = 0%Z <-> successful s = true.
+Proof.
+  intro s. unfold grpc_expected. destruct (successful s); [tauto|].
+  repeat match goal with |- context [if ?b then _ else _] => destruct b end; split; intro H; discriminate H.
+Qed.
+Print Assumptions C15_grpc_ok_iff_success.
+
+(* every status the kernel defines (regenerated from status.go) has an HTTP class and a gRPC code in the model ... *)
+Theorem C15_render_total :
+  forallb (fun c => negb (grpc_expected (snd c) =? -1)%Z &&
+                    existsb (Z.eqb (http_expected (snd c))) [200; 201; 204; 400; 403; 404; 409; 500; 503]%Z) status_consts = true.
+Proof. vm_compute. reflexivity. Qed.
+Print Assumptions C15_render_total.
+
+(* ... and the model's gRPC code is the one the regenerated code() switch returns *)
+Definition grpc_code_name (c : Z) : string :=
+  if (c =? 0)%Z then "codes.OK" else if (c =? 3)%Z then "codes.InvalidArgument" else if (c =? 5)%Z then "codes.NotFound"
+  else if (c =? 6)%Z then "codes.AlreadyExists" else if (c =? 7)%Z then "codes.PermissionDenied" else if (c =? 13)%Z then "codes.Internal"
+  else if (c =? 14)%Z then "codes.Unavailable" else "?".
+Theorem C15_grpc_code_switch_is_the_model :
+  forallb (fun c => match case_of (fst c) grpc_code_cases with
+                    | Some r => String.eqb r (grpc_code_name (grpc_expected (snd c)))
+                    | None => false end) status_consts = true.
+Proof. vm_compute. reflexivity. Qed.
+Print Assumptions C15_grpc_code_switch_is_the_model.
+
+(* the outcome flags the handlers compute (regenerated from the handlers: operation, flag, status constant compared
+   with) are exactly the flags of the model: every flag is set, with the right constant, and there is no other *)
+Definition flag_ops : list string :=
+  ["AcquireLock"; "CancelPromise"; "ClaimTask"; "CompleteTask"; "CreateCallback"; "CreatePromise"; "CreatePromiseAndTask";
+   "CreateSchedule"; "CreateSubscription"; "DeleteSchedule"; "HeartbeatLocks"; "HeartbeatTasks"; "ReadPromise"; "ReadSchedule";
+   "RejectPromise"; "ReleaseLock"; "ResolvePromise"; "SearchPromises"; "SearchSchedules"]%string.
+Definition model_flag_table : list (string * string * string) :=
+  flat_map (fun op => flat_map (fun c => match flags_expected op (snd c) with
+                                         | [(f, true)] => [(op, f, fst c)]
+                                         | _ => [] end)
+                               [("StatusOK"%string, 20000%Z); ("StatusCreated"%string, 20100%Z); ("StatusNoContent"%string, 20400%Z)]) flag_ops.
+Theorem C15_flags_are_the_model : grpc_flags = model_flag_table.
+Proof. vm_compute. reflexivity. Qed.
+Print Assumptions C15_flags_are_the_model.
